@@ -243,7 +243,8 @@ def profile_cli18(rnd, n, thorough, out):
                 out.add(part_case(count, 0, globs), "sel -", f"cli18 set={si} N={count} union",
                         f"C18|with N={count} these files are not covered exactly once over all ids: {wrong[:5]}")
         # invalid configurations: rejected without engine traffic
-        for (c, i) in [("0", "0"), ("3", "3"), ("3", "7"), ("2", None), (None, "1"), ("1", "0"), ("4", "3")]:
+        for (c, i) in [("0", "0"), ("3", "3"), ("3", "7"), ("2", None), (None, "1"), ("1", "0"), ("4", "3"),
+                       ("1", "1"), ("1", "4"), ("1", None), ("0", None)]:
             args = list(patterns)
             if c is not None:
                 args = ["--partition-count", c] + args
@@ -479,8 +480,11 @@ def profile_cli17(rnd, n, thorough, out):
             jobs = 1 + (2 * si + ri) % 8 if ri < 2 else rnd.randint(1, 8)
             keep = rnd.random() < 0.5
             lat = rnd.choice([0, 3, 10, 30])
-            r, tags, ju, evs, cause, oracle = cli_run_set(cwd, files, kinds, jobs, False, keep, rnd, latency=lat)
-            tag = f"cli17 set={si} jobs={jobs} keep={keep} latency={lat} kinds={[kinds[f] for f in files]}"
+            # under fail-fast the files in flight at the first failure are cancelled: their sessions are
+            # closed and their databases dropped all the same
+            ff = rnd.random() < 0.35
+            r, tags, ju, evs, cause, oracle = cli_run_set(cwd, files, kinds, jobs, ff, keep, rnd, latency=lat)
+            tag = f"cli17 set={si} jobs={jobs} keep={keep} failfast={ff} latency={lat} kinds={[kinds[f] for f in files]}"
             out.add(climon_case(jobs, keep, r.exit, cause, files, kinds, tags, ju, evs), "accept", tag,
                     ("C17|" + oracle) if oracle else None)
         shutil.rmtree(cwd, ignore_errors=True)
